@@ -131,6 +131,60 @@ Definition parse_regex_map (t : string) : option expr :=
     | None => None end
   | None => None
   end.
+(* sqlJsonParser.String: mapFilter((k,v) -> v != '', mapFromArrays(['l1',...], [if(JSONType(string, <path>) == 'String',
+   JSONExtractString(string, <path>), JSONExtractRaw(string, <path>)),...])) - read back only when the three paths of an item agree *)
+Definition json_item (s : string) : option (list string * string) :=
+  match after_prefix "if(JSONType(string, " s with
+  | Some r1 =>
+    match quoted_list (S (String.length r1)) r1 with
+    | Some (p1, r2) =>
+      match after_prefix ") == 'String', JSONExtractString(string, " r2 with
+      | Some r3 =>
+        match quoted_list (S (String.length r3)) r3 with
+        | Some (p2, r4) =>
+          match after_prefix "), JSONExtractRaw(string, " r4 with
+          | Some r5 =>
+            match quoted_list (S (String.length r5)) r5 with
+            | Some (p3, r6) =>
+              match after_prefix "))" r6 with
+              | Some rest => if strs_eqb p1 p2 && strs_eqb p1 p3 then Some (p1, rest) else None
+              | None => None end
+            | None => None end
+          | None => None end
+        | None => None end
+      | None => None end
+    | None => None end
+  | None => None
+  end.
+Fixpoint json_items (fuel : nat) (s : string) : option (list (list string) * string) :=
+  match fuel with
+  | O => None
+  | S f =>
+    match json_item s with
+    | Some (p, rest) =>
+      match rest with
+      | String c r => if Ascii.eqb c "," then match json_items f r with Some (ps, r2) => Some (p :: ps, r2) | None => None end
+                      else Some ([p], rest)
+      | EmptyString => Some ([p], rest)
+      end
+    | None => Some ([], s)
+    end
+  end.
+Definition parse_json_map (t : string) : option expr :=
+  match after_prefix "mapFilter((k,v) -> v != '', mapFromArrays([" t with
+  | Some r1 =>
+    match quoted_list (S (String.length r1)) r1 with
+    | Some (labels, r2) =>
+      match after_prefix "], [" r2 with
+      | Some r3 =>
+        match json_items (S (String.length r3)) r3 with
+        | Some (paths, r4) =>
+          if String.eqb r4 "]))" && Nat.eqb (List.length labels) (List.length paths) then Some (sql_json_parser labels paths) else None
+        | None => None end
+      | None => None end
+    | None => None end
+  | None => None
+  end.
 (* mapDropFilter's lambda: (k,v) -> k!='a' and (k, v)!=('b', 'c') and ... *)
 Fixpoint drop_lambda_clauses (fuel : nat) (s : string) : option (list expr) :=
   match fuel with
@@ -240,6 +294,8 @@ Section PREP.
     | Fn name args =>
       if String.eqb name "mapFromArrays" && String.eqb (fst (rexpr e no_opts rst0)) labels_map_raw then Raw labels_map_raw
       else if String.eqb name "cityHash64" && String.eqb (fst (rexpr e no_opts rst0)) fp_labels_raw then Raw fp_labels_raw
+      else if String.eqb name "mapFilter" && match parse_json_map (fst (rexpr e no_opts rst0)) with Some _ => true | None => false end
+      then match parse_json_map (fst (rexpr e no_opts rst0)) with Some m => m | None => e end
       else if String.eqb name "mapFromArrays" && match parse_regex_map (fst (rexpr e no_opts rst0)) with Some _ => true | None => false end
       then match parse_regex_map (fst (rexpr e no_opts rst0)) with Some m => m | None => e end
       else if (String.eqb name "mapFromArrays" || String.eqb name "mapFilter") && match cand_lookup (expr_text e) cands with Some _ => true | None => false end
@@ -316,12 +372,6 @@ Definition wrefs_bound (top : select) : bool :=
 
 (* ---------- oracle tables computed by the harness with Go's regexp / strconv / encoding/json ---------- *)
 Definition jg_table := list (string * list string * string).   (* line, path, extracted value *)
-Fixpoint strs_eqb (a b : list string) : bool :=
-  match a, b with
-  | [], [] => true
-  | x :: a', y :: b' => String.eqb x y && strs_eqb a' b'
-  | _, _ => false
-  end.
 Fixpoint jg_lookup (t : jg_table) (s : string) (p : list string) : string :=
   match t with
   | [] => ""
